@@ -1246,6 +1246,27 @@ impl LpgStore {
     pub fn create_property_index(&self, property: &str) {
         let key = PropertyKey::new(property);
 
+        // Lock order: the node table before the property indexes. Property writers
+        // hold the node table exclusively while they update an index, so taking it
+        // second (as the scan below used to, through node_ids()) can deadlock with
+        // them; held shared here, it also keeps them out until the index is in place.
+        #[cfg(not(feature = "tiered-storage"))]
+        let node_table = self.nodes.read();
+        #[cfg(not(feature = "tiered-storage"))]
+        let node_ids: Vec<NodeId> = {
+            let epoch = self.current_epoch();
+            node_table
+                .iter()
+                .filter_map(|(id, chain)| {
+                    chain
+                        .visible_at(epoch)
+                        .and_then(|r| if !r.is_deleted() { Some(*id) } else { None })
+                })
+                .collect()
+        };
+        #[cfg(feature = "tiered-storage")]
+        let node_ids = self.node_ids();
+
         let mut indexes = self.property_indexes.write();
         if indexes.contains_key(&key) {
             return; // Already indexed
@@ -1255,7 +1276,7 @@ impl LpgStore {
         let index: DashMap<HashableValue, FxHashSet<NodeId>> = DashMap::new();
 
         // Scan all nodes to build the index
-        for node_id in self.node_ids() {
+        for node_id in node_ids {
             if let Some(value) = self.node_properties.get(node_id, &key) {
                 let hv = HashableValue::new(value);
                 index.entry(hv).or_default().insert(node_id);
@@ -1263,6 +1284,8 @@ impl LpgStore {
         }
 
         indexes.insert(key, index);
+        #[cfg(not(feature = "tiered-storage"))]
+        drop(node_table);
     }
 
     /// Drops an index on a node property.
